@@ -132,14 +132,14 @@ TEXT = {
         "engine": "ve2e (E2E)",
         "technique": "differential runtime monitor over real sockets: every request cell is sent to a real run_listener and compared with an independent decision predicate and with the unknown-path twin response",
         "design_ref": "DESIGN.md §4 C14",
-        "level_text": "All request cells with at most two deviations from the valid upgrade (1 082 per configuration) x 12 server configurations are sent as raw HTTP/1.1 (and HTTP/1.0) requests over loopback; 101 iff the predicate, accept hash from our own SHA-1, a Ping must be answered behind every 101; every refused /ws (and /health, /version under obfs) response must equal the unknown-path response byte for byte (minus date) and the stub backend must have seen the same request.",
+        "level_text": "All request cells with at most two deviations from the valid upgrade (1 082 per configuration) x 12 server configurations are sent as raw HTTP/1.1 (and HTTP/1.0) requests over loopback; 101 iff the predicate, accept hash from our own SHA-1, a Ping must be answered behind every 101, also when it is sent in the same write as the request; every refused /ws (and /health, /version under obfs) response must equal the unknown-path response byte for byte (minus date) and the stub backend must have seen the same request.",
         "level_note": "Cells with more than two deviations are sampled; HTTP/2 and TLS front-ends are not exercised here.",
     },
     "C17": {
         "engine": "ve2e (E2E)",
         "technique": "runtime monitor over real TLS handshakes: full configuration matrix executed through run_listener + tls_connect, recording client-certificate resolver, identity reload with a live connection",
         "design_ref": "DESIGN.md §4 C17",
-        "level_text": "All 72 cells of the statement's matrix are executed as real handshakes followed by an HTTP exchange and compared with the reference truth table; a recording resolver observes whether the server asks for a certificate; reload probes with a client that re-uses its TLS session state; a 12-cell matrix of the server name a real client asks for (client_main_inner with --tls-server-name / --hostname / neither); probes with CA bundles that contain no certificate; reload cycles (through reload_tls_identity, and through the operator's path server_main + replaced files + SIGUSR1, three or more in a row, with and without a client CA) check that new handshakes see the new identity, that the client-certificate policy is unchanged after every reload, and that an established connection keeps working. Exhaustive over the matrix.",
+        "level_text": "All 72 cells of the statement's matrix are executed as real handshakes followed by an HTTP exchange and compared with the reference truth table; a recording resolver observes whether the server asks for a certificate; reload probes with a client that re-uses its TLS session state; a 12-cell matrix of the server name a real client asks for (client_main_inner with --tls-server-name / --hostname / neither); probes with CA bundles that contain no certificate; reload cycles (through reload_tls_identity, and through the operator's path server_main + replaced files + SIGUSR1, three or more in a row, one of them preceded by a request that fails because the key file is missing, with and without a client CA) check that new handshakes see the new identity, that the client-certificate policy is unchanged after every reload, and that an established connection keeps working. Exhaustive over the matrix.",
         "level_note": "Key types: ECDSA P-256 (quick), plus P-384 and Ed25519 (thorough); native-tls build is not exercised.",
     },
     "C19": {
@@ -153,7 +153,7 @@ TEXT = {
         "engine": "ve2e (E2E) + vmux (SIM)",
         "technique": "runtime monitor over real client/server executions on loopback: scripted local clients and targets, position-addressed payloads, per-conversation byte-stream and end-of-direction oracle, UDP tag/source/duplicate/header oracle",
         "design_ref": "DESIGN.md §4 C01",
-        "level_text": "Conversations of six kinds enter through all eight TCP entry kinds (fixed port, Unix socket, SOCKS4/4a, SOCKS5 v4/v6/domain, HTTP CONNECT) with seeded sizes (0 to several windows), chunking and concurrency; UDP exchanges run through the UDP remote and SOCKS5 UDP ASSOCIATE with several local sockets at once, each association addressing two different targets. UDP clients that fall silent for 11 s (longer than the relay's idle time-out) and then resume must not stay black-holed; clients that send one-way for 21 s must still get a late reply that the target sends to the address it first heard from. Conversations in which the local client goes away first (close while the target streams 48 MiB, with or without a prior half-close, with or without a pause) check that the target is not left blocked; their deterministic core (a peer that still has send credit is told within one round trip that the stream was let go) runs in the simulator (c01b). Every received byte is checked against the sender's position-addressed stream, half-close and close propagation are checked per direction, UDP replies per socket. Exploration under the OS scheduler.",
+        "level_text": "Conversations of nine kinds enter through all eight TCP entry kinds (a third of the SOCKS5 clients do not wait for the proxy's replies) (fixed port, Unix socket, SOCKS4/4a, SOCKS5 v4/v6/domain, HTTP CONNECT) with seeded sizes (0 to several windows), chunking and concurrency; UDP exchanges run through the UDP remote and SOCKS5 UDP ASSOCIATE with several local sockets at once, each association addressing two different targets. UDP clients that fall silent for 11 s (longer than the relay's idle time-out) and then resume must not stay black-holed; clients that send one-way for 21 s must still get a late reply that the target sends to the address it first heard from. Conversations in which the local client goes away first (close while the target streams 48 MiB, with or without a prior half-close, with or without a pause) check that the target is not left blocked; their deterministic core (a peer that still has send credit is told within one round trip that the stream was let go) runs in the simulator (c01b). Every received byte is checked against the sender's position-addressed stream, half-close and close propagation are checked per direction, UDP replies per socket. Exploration under the OS scheduler.",
         "level_note": "No schedule control on real sockets; a hang needs a witness (process quiescence, or no byte of progress for 10 s on the connection), otherwise the run is inconclusive. One open known finding (target left hanging after half-close + pause + close), see known_findings.json and DESIGN.md 7.5.",
     },
 }
